@@ -192,6 +192,8 @@ def _ambient(kind):
 def c07_case(opt, proto, tseed, ambient):
     scn = {'opt': opt, 'over': {'max_cycles': 3, 'fitness_error': None, 'early_stopping': None}, 'proto': proto,
            'task_seed': tseed, 'seed': 31337 + len(ambient)}
+    if proto == 'perm4s':
+        scn['obj'] = 'decoded'
     _ambient(ambient)
     ex = harness.run_execution(scn)
     return ex, harness.h8((canon_result(ex.result), repr(ex.exc[:2]) if ex.exc else None))
